@@ -67,25 +67,7 @@ def typestate_component(tier, seed):
         w = _witness_for(f.method, f.rule)
         res.findings.append(Finding(key=key, text=f"SVG.{f.method} (svg.py:{f.line}) breaks typestate rule {f.rule}: {f.text}" + (f" - witness: {w['doc']} {w['history']}: {w['disagreement']}" if w else ""),
                                     replay=dict(method=f.method, rule=f.rule, line=f.line, witness=w), confirmed=bool(w)))
-    # _update_etree is the flush primitive itself: check its shape instead of running the typestate rules over it
-    import ast
-
-    node = an.methods["_update_etree"]
-    src_ok = []
-    first = node.body[0]
-    src_ok.append(isinstance(first, ast.If) and isinstance(first.test, ast.UnaryOp) and typestate._is_self_attr(first.test.operand, "elements") and isinstance(first.body[0], ast.Return))
-    last = node.body[-1]
-    src_ok.append(isinstance(last, ast.Assign) and typestate._is_self_attr(last.targets[0], "elements") and isinstance(last.value, ast.Constant) and last.value.value is None)
-    calls = [c for st in node.body for c in typestate._calls(st)]
-    names = [getattr(c.func, "attr", getattr(c.func, "id", "")) for c in calls]
-    src_ok.append("cache_clear" in names and "_swap_elements" in names and names.index("cache_clear") < names.index("_swap_elements"))
-    src_ok.append("to_element" in names)
-    for ok, nm in zip(src_ok, ("skips only when nothing is cached", "ends by invalidating the cache", "clears the inherited-attribute memo before writing back", "writes every cached shape back through to_element")):
-        res.obligations += 1
-        if ok:
-            res.discharged += 1
-        else:
-            res.findings.append(Finding(key=f"typestate:_update_etree:{nm}", text=f"SVG._update_etree no longer {nm}", replay={}, confirmed=False))
+    # _update_etree is the flush primitive itself: it is put under contract by running it (state.flush in trace_runs.py)
     return res
 
 
